@@ -27,16 +27,23 @@ PROPS = {
         "verus": [(U1, ["U1.next"]), (U5, ["C02.run.log", "U5.run"])],
     },
     "C02": {
-        "witness": ("w_server", ['w_c02_dispatch', 'w_c20_malformed']),
+        # a command that is not reassembled exactly (C01), or whose fragments are wrongly judged out of
+        # order, is a command that does not reach its callback verbatim
+        "also": ["C01.", "C05.packet", "C20.packet"],
+        "witness": ("w_server", ['w_c02_dispatch', 'w_c20_malformed', 'w_c01_chunkings']),
         "title": "Each client command reaches exactly the right shim callback, verbatim",
-        "kani": [("k2_commands", ["k2_parse_text", "k2_parse_stmt", "k2_parse_other"])],
-        "verus": [(U5, ["U5."])],
+        "kani": [("k2_commands", ["k2_parse_text", "k2_parse_stmt", "k2_parse_other"]), ("k1_frames", None)],
+        "native": ["n1_packet"],
+        "verus": [(U5, ["U5."]), (U1, ["U1.next"])],
     },
     "C03": {
         "witness": ("w_server", ['w_c03_responses', 'w_c07_binary', 'w_c14_counts']),
         "title": "Exactly one complete, protocol-conformant response per command",
         "kani": [],
-        "verus": [(U2, ["U2.", "C13.", "C14.", "C09."]), (U3, ["U3.", "C13.", "C14.", "C09.", "C07.row", "C10.reply"]), (U5, ["U5.", "C02.run.log"])],
+        # a response that is mis-framed (C04) or carries wrong sequence ids (C05) is not one a conformant
+        # client accepts, and shifts the next reply
+        "also": ["C04.", "C05."],
+        "verus": [(U2, ["U2.", "C13.", "C14.", "C09."]), (U3, ["U3.", "C13.", "C14.", "C09.", "C07.row", "C10.reply"]), (U5, ["U5.", "C02.run.log"]), (U1, ["U1.write", "U1.end", "U1.flush"])],
     },
     "C04": {
         "witness": ("w_server", ['w_c04_big']),
@@ -64,13 +71,16 @@ PROPS = {
         "witness": ("w_server", ['w_c07_binary']),
         "title": "Binary-protocol rows arrive unchanged, with an exact NULL bitmap",
         "kani": [("k4_ints", None), ("k4_values", None), ("k6_deps", ["k6_write_lenenc_int", "k6_write_lenenc_str", "k6_byteorder_le"])],
-        "verus": [(U3, ["U3.write_col", "U3.end_row", "C03.shape"])],
+        # rows are decoded "using the advertised column types and flags": the column definitions count
+        "verus": [(U3, ["U3.write_col", "U3.end_row", "C03.shape"]), (U2, ["C09.coldefs", "C09.count"])],
     },
     "C08": {
-        "witness": ("w_server", ['w_c08_params']),
+        # "exactly as many parameters as the statement declared": the registry entry made by the PREPARE reply
+        "also": ["C10.reply", "U3.reply"],
+        "witness": ("w_server", ['w_c08_params', 'w_c10_registry']),
         "title": "Prepared-statement parameters are decoded to exactly what the client bound",
         "kani": [("k2_commands", ["k2_parse_stmt"]), ("k3_decode", None)],
-        "verus": [(U4, ["U4."])],
+        "verus": [(U4, ["U4."]), (U3, ["U3.reply", "C10.reply"])],
     },
     "C09": {
         "witness": ("w_server", ['w_c09_meta']),
@@ -117,16 +127,19 @@ PROPS = {
         "verus": [(U2, ["C09.coldefs"])],
     },
     "C16": {
-        "witness": ("w_server", ['w_c16_c17_stmt']),
+        "witness": ("w_server", ['w_c16_c17_stmt', 'w_c10_registry']),
         "title": "Bound parameter types persist per statement across executions",
         "kani": [],
-        "verus": [(U4, ["U4.", "C08.next"]), (U5, ["C10.", "C17.clear", "C17.append", "C02.run.log", "U5.run"])],
+        # re-preparing an id starts it afresh (C10): stale bound types would be "types of another statement"
+        "also": ["C10.reply", "U3.reply"],
+        "verus": [(U4, ["U4.", "C08.next"]), (U5, ["C10.", "C17.clear", "C17.append", "C02.run.log", "U5.run"]), (U3, ["U3.reply"])],
     },
     "C17": {
-        "witness": ("w_server", ['w_c16_c17_stmt']),
+        "witness": ("w_server", ['w_c16_c17_stmt', 'w_c10_registry']),
         "title": "Long data is concatenated in order, delivered once, and never leaks",
         "kani": [("k2_commands", ["k2_parse_stmt"])],
-        "verus": [(U4, ["U4.", "C08.next"]), (U5, ["C10.", "C02.run.log", "U5.run"])],
+        "also": ["C10.reply", "U3.reply"],
+        "verus": [(U4, ["U4.", "C08.next"]), (U5, ["C10.", "C02.run.log", "U5.run"]), (U3, ["U3.reply"])],
     },
     "C18": {
         "witness": ("w_server", ['w_c04_big', 'w_c11_handshake']),
